@@ -204,6 +204,11 @@ def handle (ds : DState) (line : String) : DState × String :=
       match a.toNat?, (ops.splitOn ";").mapM (fun o => parseSysOp (o.splitOn ":")) with
       | some a, some l => ({ ds with scripts := (a, l) :: ds.scripts }, "ok")
       | _, _ => (ds, "bad-op")
+    | ["once", k, args] =>      -- CmdPeriod.do_once: a new self-removing wrapper registered under key k
+      match k.toNat?, args.toNat? with
+      | some k, some args =>
+        ({ ds with scripts := (k, onceBeh (fun _ => true) k) :: ds.scripts, sys := sysAdd k args ds.sys }, "ok")
+      | _, _ => (ds, "bad-op")
     | ["run"] =>
       let beh := fun a => match ds.scripts.find? (·.1 == a) with | some (_, l) => l | none => []
       let (r, l) := sysRun beh ds.sys
